@@ -48,6 +48,7 @@ type scase struct {
 		Backends int    `json:"backends"`
 		Cloud    bool   `json:"cloud"`
 		Events   bool   `json:"events"`
+		Expiry   int    `json:"expiry"` // seconds after which an idle series is dropped; 0: never
 	} `json:"cfg"`
 	Sched []op `json:"sched"`
 }
@@ -77,6 +78,9 @@ func (c *conn) LocalAddr() net.Addr                          { return &net.UDPAd
 func (c *conn) SetDeadline(time.Time) error                  { return nil }
 func (c *conn) SetReadDeadline(time.Time) error              { return nil }
 func (c *conn) SetWriteDeadline(time.Time) error             { return nil }
+
+// the server's own series the accounting monitor (spec/AccountingProp.tla) follows
+var ownNames = map[string]bool{"receiver.datagrams_received": true, "parser.metrics_received": true, "parser.events_received": true, "parser.bad_lines_seen": true}
 
 type world struct {
 	mu    sync.Mutex
@@ -108,6 +112,11 @@ func (b *backend) SendMetricsAsync(ctx context.Context, mm *gostatsd.MetricMap, 
 	mm.Counters.Each(func(name, _ string, _ gostatsd.Counter) {
 		if strings.HasPrefix(name, "m") {
 			names = append(names, name)
+		}
+	})
+	mm.Gauges.Each(func(name, _ string, g gostatsd.Gauge) {
+		if ownNames[name] {
+			b.w.emit(map[string]any{"ev": "own", "b": b.n, "name": name, "kind": "gauge", "v": int(g.Value)})
 		}
 	})
 	b.w.emit(map[string]any{"ev": "flush", "b": b.n, "n": len(names)})
@@ -152,9 +161,21 @@ func (u *upstream) RoundTrip(req *http.Request) (*http.Response, error) {
 		var m pb.RawMessageV2
 		n := 0
 		if proto.Unmarshal(b, &m) == nil {
-			for name := range m.Counters {
+			for name, tm := range m.Counters {
 				if strings.HasPrefix(name, "m") {
 					n++
+				}
+				if ownNames[name] {
+					for _, c := range tm.TagMap {
+						u.w.emit(map[string]any{"ev": "own", "b": 1, "name": name, "kind": "count", "v": int(c.Value)})
+					}
+				}
+			}
+			for name, tm := range m.Gauges { // bad_lines_seen is a gauge in either mode
+				if ownNames[name] {
+					for _, g := range tm.TagMap {
+						u.w.emit(map[string]any{"ev": "own", "b": 1, "name": name, "kind": "gauge", "v": int(g.Value)})
+					}
 				}
 			}
 		}
@@ -236,6 +257,11 @@ func runSchedule(t *testing.T, tw *trace.Writer, c *scase, idx int, res *vh.Resu
 			srv := &statsd.Server{Backends: bs, FlushInterval: time.Second, MaxReaders: 1, MaxParsers: 2, MaxWorkers: c.Cfg.Workers, MaxQueueSize: c.Cfg.Queue,
 				MaxConcurrentEvents: 2, EstimatedTags: 4, ReceiveBatchSize: 2, ServerMode: "standalone", Hostname: "me", DisableInternalEvents: !c.Cfg.Events,
 				Viper: viper.New(), PercentThreshold: []float64{90}}
+			exp := time.Duration(c.Cfg.Expiry) * time.Second
+			srv.ExpiryIntervalCounter, srv.ExpiryIntervalGauge, srv.ExpiryIntervalSet, srv.ExpiryIntervalTimer = exp, exp, exp, exp
+			if c.Cfg.Expiry == 0 {
+				res.Hit("expiry-disabled")
+			}
 			if c.Cfg.Mode == "forwarder" {
 				logger := logrus.New()
 				logger.SetLevel(logrus.PanicLevel)
@@ -275,9 +301,13 @@ func runSchedule(t *testing.T, tw *trace.Writer, c *scase, idx int, res *vh.Resu
 			stopped := false
 			stopAt := time.Time{}
 			seq := 0
-			send := func(text string, from int) {
+			everHeld := false
+			send := func(text string, from, m, e, bad int) {
 				select {
 				case sock.q <- packet{[]byte(text), &net.UDPAddr{IP: net.IPv4(10, 0, 0, byte(1+from%2)), Port: 999}}:
+					// (what is put on the socket of a server that is being stopped may or may not be read: the totals are an upper bound
+					// from then on, and nothing is settled after a stop)
+					w.emit(map[string]any{"ev": "offered", "d": 1, "m": m, "e": e, "bad": bad})
 				default:
 				}
 			}
@@ -289,11 +319,15 @@ func runSchedule(t *testing.T, tw *trace.Writer, c *scase, idx int, res *vh.Resu
 						seq++
 						lines = append(lines, fmt.Sprintf("m%d:1|c|#a:b", seq))
 					}
-					send(strings.Join(lines, "\n"), seq)
+					send(strings.Join(lines, "\n"), seq, o.K, 0, 0)
 					res.Hit("datagram")
+				case "bad": // a line the parser rejects next to one it accepts
+					seq++
+					send(fmt.Sprintf("zz%d:x|c\nm%d:1|c", seq, seq), seq, 1, 0, 1)
+					res.Hit("bad-line")
 				case "ev":
 					seq++
-					send(fmt.Sprintf("_e{2,2}:t%d|xx|#a:b", seq%10), seq)
+					send(fmt.Sprintf("_e{2,2}:t%d|xx|#a:b", seq%10), seq, 0, 1, 0)
 					res.Hit("client-event")
 				case "hold":
 					w.mu.Lock()
@@ -301,6 +335,7 @@ func runSchedule(t *testing.T, tw *trace.Writer, c *scase, idx int, res *vh.Resu
 						w.gates[o.K] = make(chan struct{})
 					}
 					w.mu.Unlock()
+					everHeld = true
 					w.emit(map[string]any{"ev": "hold", "b": o.K})
 					res.Hit("backend-held")
 				case "release":
@@ -323,6 +358,14 @@ func runSchedule(t *testing.T, tw *trace.Writer, c *scase, idx int, res *vh.Resu
 				synctest.Wait()
 			}
 			if !stopped {
+				if !everHeld {
+					// every backend has answered all along: after four more flush intervals everything offered has been read, counted, reported
+					// by the components, carried through the pipeline and handed to the backends
+					time.Sleep(4500 * time.Millisecond)
+					synctest.Wait()
+					w.emit(map[string]any{"ev": "settled"})
+					res.Hit("settled")
+				}
 				stopAt = time.Now()
 				w.emit(map[string]any{"ev": "stop"})
 				cancel()
